@@ -34,10 +34,10 @@ import (
 // overflow is the length of the finished-but-uncollected list, valid at "exec.pushed" and "chan.handoff" only.
 func SetVerifHook(f func(point, node string, tm, task uintptr, overflow int)) {
 	if f == nil {
-		verifTaskHook = nil
+		setVerifTaskHook(nil)
 		return
 	}
-	verifTaskHook = func(point string, tm *taskManager, ta *task) {
+	setVerifTaskHook(func(point string, tm *taskManager, ta *task) {
 		node := ""
 		if ta != nil {
 			node = ta.nodeKey
@@ -47,7 +47,7 @@ func SetVerifHook(f func(point, node string, tm, task uintptr, overflow int)) {
 			ov = tm.l.Len()
 		}
 		f(point, node, uintptr(unsafe.Pointer(tm)), uintptr(unsafe.Pointer(ta)), ov)
-	}
+	})
 }
 
 type Task03 struct {
@@ -152,7 +152,7 @@ func checkC03W(c CaseC03W) (*vkit.Failure, vkit.Meta) {
 	var evMu sync.Mutex
 	var evs []ev
 	tm := &taskManager{needAll: c.NeedAll, l: list.New(), done: make(chan *task, 1)}
-	verifTaskHook = func(point string, t *taskManager, ta *task) {
+	setVerifTaskHook(func(point string, t *taskManager, ta *task) {
 		if t != tm {
 			return
 		}
@@ -167,8 +167,8 @@ func checkC03W(c CaseC03W) (*vkit.Failure, vkit.Meta) {
 		for i := 0; i < c.Delays[point]; i++ {
 			runtime.Gosched()
 		}
-	}
-	defer func() { verifTaskHook = nil }()
+	})
+	defer setVerifTaskHook(nil)
 	gates := &gates03{open: map[string]bool{}}
 	gates.cond = sync.NewCond(&gates.mu)
 	bodies := map[*composableRunnable]*body03{}
